@@ -898,7 +898,7 @@ def _atom_eq(a, b):
     return None
 
 
-def s_eq(a, b):
+def s_eq(a, b, _depth=0):
     """a == b for strings.  Returns bool | z3 Bool | Approx."""
     if isinstance(a, str) and isinstance(b, str):
         return a == b
@@ -953,9 +953,29 @@ def s_eq(a, b):
             if exact or c is True:
                 return c
             return Approx(c)
+    # structures differ: decide which symbolic-length atoms are empty on this path and compare again
+    if _depth == 0 and CUR is not None:
+        def prune(atoms):
+            out = []
+            changed = False
+            for x in atoms:
+                if x[0] in ('opq', 'rep'):
+                    ln = _atom_len(x)
+                    if is_z3(ln) and CUR.truth(i_cmp('==', ln, 0)):
+                        changed = True
+                        continue
+                out.append(x)
+            return out, changed
+        A2, ca_ = prune(A)
+        B2, cb_ = prune(B)
+        if ca_ or cb_:
+            return s_eq(mk_rope(A2), mk_rope(B2), 1)
     # lengths differ -> unequal; otherwise unknown
     la, lb = s_len(a), s_len(b)
-    return Approx(b_and(i_cmp('==', la, lb), False))
+    dl = i_cmp('==', la, lb)
+    if dl is False:
+        return False
+    return Approx(False)
 
 
 def s_mul(s, n):
